@@ -100,12 +100,18 @@ def nx_graph(rng, ov):
             "nx_edges": [[ids[0], ids[-1], {ename: rng.randint(0, 9) / 2}]] if n >= 2 else [], "ov": ov, "validate": True}
 
 
+def ovkw(call):
+    """overwrite is passed only when it is requested: a call that does not ask for it relies on the documented default (no overwrite),
+    and structural validation on relies on its default too -- a flipped default is a silent clobber"""
+    return {"overwrite": True} if call["ov"] else {}
+
+
 def do_call(c, call, store, fmt):
     if c["entry"] == "arrays":
         from geff.core_io import write_arrays
 
         write_arrays(store, gg.to_np(call["nids"]), gg.props_to_np(call["nprops"]), gg.to_np(call["eids"]), gg.props_to_np(call["eprops"]),
-                     gg.make_metadata(call["md"]), zarr_format=fmt, structure_validation=call["validate"], overwrite=call["ov"])
+                     gg.make_metadata(call["md"]), zarr_format=fmt, **({"structure_validation": False} if not call["validate"] else {}), **ovkw(call))
     elif c["entry"] == "ctc":
         from geff.convert import from_ctc_to_geff
         from harness import c15
@@ -115,7 +121,7 @@ def do_call(c, call, store, fmt):
         case = c15.base_case(**c15.dataset_from_presence(r, 2, {l: [0, 1] for l in labs}, {}))
         root = c15.scratch_dir()
         try:
-            from_ctc_to_geff(c15.write_dataset(case, root), store, overwrite=call["ov"], zarr_format=fmt)
+            from_ctc_to_geff(c15.write_dataset(case, root), store, zarr_format=fmt, **ovkw(call))
         finally:
             shutil.rmtree(root, ignore_errors=True)
     elif c["entry"] == "nx":
@@ -128,7 +134,7 @@ def do_call(c, call, store, fmt):
             G.add_node(i, **d)
         for a, b, d in call["nx_edges"]:
             G.add_edge(a, b, **d)
-        geff.write(G, store, zarr_format=fmt, overwrite=call["ov"])
+        geff.write(G, store, zarr_format=fmt, **ovkw(call))
     else:
         import rustworkx as rx
 
@@ -140,7 +146,7 @@ def do_call(c, call, store, fmt):
             idx[i] = G.add_node(dict(d))
         for a, b, d in call["nx_edges"]:
             G.add_edge(idx[a], idx[b], dict(d))
-        geff.write(G, store, zarr_format=fmt, overwrite=call["ov"], node_id_dict={v: k for k, v in idx.items()})
+        geff.write(G, store, zarr_format=fmt, **ovkw(call), node_id_dict={v: k for k, v in idx.items()})
 
 
 def has_geff(store):
